@@ -17,6 +17,8 @@ OPS = ["driver", "prms", "compute", "read_sf", "read_pdf"]
 BOUNDS = {"quick": dict(n=3, history="every sequence over {set driver, set_prms, compute, read sf, read pdf} of length <= 4 that ends in compute",
                         classes="idsm, sdsm manual, sdsm lapack x 5 lifetime classes", system_loop="2 and 3 iterations"),
           "thorough": dict(n=3, history="length <= 5", classes="as quick", system_loop="2 to 4 iterations")}
+# dtype shadow: per-cohort parameter arrays first in an integer dtype, then replaced by non-whole ones (differential concrete run)
+DTYPE_SHADOW = lambda cfg: "always" if (cfg["h"] == "history" and cfg.get("first") in ("array", "arrays") and "prms" in cfg["seq"]) else False
 OPTS = {"quick": dict(shadow_every=40, timeout_ms=20000, max_paths=200), "thorough": dict(shadow_every=200, timeout_ms=60000, max_paths=200)}
 REAL = {"FixedLifetime": ["mean"], "NormalLifetime": ["mean", "std"], "FoldedNormalLifetime": ["mean", "std"],
         "LogNormalLifetime": ["mean", "std"], "WeibullLifetime": ["weibull_shape", "weibull_scale"]}
@@ -47,8 +49,20 @@ def configs(tier, seed):
             # the same histories on an evenly spaced grid, with set_prms alternating between scalars and per-cohort arrays
             for seq in seqs:
                 if "prms" in seq and len(seq) <= 3:
-                    for first in ("scalar", "array"):
+                    for first in ("scalar", "array", "arrays"):
                         out.append(dict(h="history", op=kind + lt + "u", key=f"history/{kind}/{lt}/unit/{first}/" + ">".join(seq), kind=kind, lt=lt, seq=seq, n=3, grid="unit", first=first))
+                if seq == ["prms", "compute"]:
+                    # parameters set twice before anything is computed (no table is cached, but the arrays the model holds are)
+                    out.append(dict(h="history", op=kind + lt + "u", key=f"history/{kind}/{lt}/unit/arrays/prms>prms>compute", kind=kind, lt=lt, seq=["prms", "prms", "compute"], n=3, grid="unit", first="arrays"))
+                    # ... on a model that was built without parameters (as stocks made from definitions are)
+                    for sq in (["prms", "prms", "compute"], ["prms", "compute", "prms", "compute"]):
+                        out.append(dict(h="history", op=kind + lt + "u", key=f"history/{kind}/{lt}/unit/arrays/bare_model/" + ">".join(sq), kind=kind, lt=lt, seq=sq, n=3, grid="unit", first="arrays", bare=True))
+                if "prms" in seq and len(seq) <= 3:
+                    # ... and with a multi-point rule / another inflow instant (settings that live on the lifetime model object)
+                    # (inflow-driven only: the settings act inside the lifetime model, and a 3-point table inside the
+                    #  stock-driven quotients costs half a minute per configuration)
+                    for ia, npts in ((("middle", 3), ("start", 1)) if kind == "idsm" else ()):
+                        out.append(dict(h="history", op=kind + lt + "q", key=f"history/{kind}/{lt}/{ia}{npts}/" + ">".join(seq), kind=kind, lt=lt, seq=seq, n=3, grid="uneven", inflow_at=ia, npts=npts))
     for lt in REAL:
         for order in ("ab", "ba"):
             out.append(dict(h="definition_system", op=lt, key=f"definition_system/{lt}/set_prms_order={order}", kind="idsm", lt=lt, n=3, order=order))
@@ -89,6 +103,10 @@ def _prms(w, lt, tag, kind="scalar", dims=None):
 
             n = dims["t"].len
             A = w.arr(f"{name}_{tag}", (n,), default=lambda idx, name=name: DEF[name] * (1 + 0.45 * idx[0] + 0.1 * len(tag)))
+            if getattr(w, "int_arrays", False):
+                # dtype shadow: lifetimes first given in whole years (integer dtype), later ones not whole
+                # (the constructor's and the first set_prms' arrays are whole numbers, every later one is not)
+                A = np.abs(A) + 1 if tag in ("p0", "p1") else np.abs(A).astype(np.float64) + 1.375
             for x in A.flat:
                 w.assume(w.gt(x, 0))
             out[name] = FlodymArray(dims=dims.get_subset(("t",)), values=A)
@@ -100,10 +118,13 @@ def _results(st):
                 stock_by_cohort=st.get_stock_by_cohort(), outflow_by_cohort=st.get_outflow_by_cohort())
 
 
+_SETTINGS = {}
+
+
 def _fresh(kind, dims, lt, prm, driver):
     import flodym.lifetime_models as lm
 
-    model = getattr(lm, lt)(dims=dims, **prm)
+    model = getattr(lm, lt)(dims=dims, **_SETTINGS, **prm)
     st = dsm.build_stock(kind, dims, lifetime=model, **({"inflow": driver} if kind == "idsm" else {"stock": driver}))
     st.compute()
     return _results(st)
@@ -123,6 +144,9 @@ def run(cfg, w):
     import flodym.lifetime_models as lm
 
     n, kind, lt = cfg["n"], cfg["kind"], cfg["lt"]
+    _SETTINGS.clear()
+    if cfg.get("npts"):
+        _SETTINGS.update(inflow_at=cfg["inflow_at"], n_pts_per_interval=cfg["npts"])
     y, dt, b = dsm.make_grid(w, n, cfg.get("grid", "uneven"))
     dims = dsm.make_dims(y, {"r": 2})
     shape = dims.shape
@@ -144,7 +168,7 @@ def run(cfg, w):
         _compare(w, "a_after_new_parameters", _results(A), _fresh("idsm", dims, lt, P1, dA))
         return
     if cfg["h"] == "history":
-        kinds_cycle = ["scalar", "array"] if cfg.get("first") == "scalar" else ["array", "scalar"] if cfg.get("first") else ["scalar"]
+        kinds_cycle = {"scalar": ["scalar", "array"], "array": ["array", "scalar"], "arrays": ["array"]}.get(cfg.get("first"), ["scalar"])
         nset = [0]
 
         def next_kind():
@@ -154,7 +178,7 @@ def run(cfg, w):
 
         prm = _prms(w, lt, "p0", next_kind(), dims)
         driver = w.arr("d0", shape)
-        model = getattr(lm, lt)(dims=dims, **prm)
+        model = getattr(lm, lt)(dims=dims, **_SETTINGS, **({} if cfg.get("bare") else prm))
         st = dsm.build_stock(kind, dims, lifetime=model, **({"inflow": driver} if kind == "idsm" else {"stock": driver}))
         drv_arr = st.inflow if kind == "idsm" else st.stock
         for i, op in enumerate(cfg["seq"]):
